@@ -424,7 +424,7 @@ fn main() {
     ctx.exhaustive("large-extents", "tensor-case", "22 shapes with extents beyond 255 / 65535, 1500 sampled indices each", false, bigs.into_iter().enumerate().map(|(i, dims)| Case::Big { dims, seed: i as u32 }), run_case);
     let dims = || (1usize..=4).prop_flat_map(|r| prop::collection::vec(1u8..=4, r));
     let ival = prop_oneof![any::<i64>(), Just(i64::MIN), Just(i64::MAX), -10i64..10];
-    ctx.prop("io-i64", "tensor-case", ctx.n(3_000, 1_000_000), (dims(), prop::collection::vec(ival, 1..20)).prop_map(|(dims, vals)| Case::IoInts { dims, vals }), run_case);
+    ctx.prop_split("io-i64", "tensor-case", ctx.n(3_000, 1_000_000), ctx.parts(), (dims(), prop::collection::vec(ival, 1..20)).prop_map(|(dims, vals)| Case::IoInts { dims, vals }).boxed(), run_case);
     ctx.prop("io-string", "tensor-case", ctx.n(2_000, 600_000), (dims(), prop::collection::vec("[!-~]{1,6}", 1..12)).prop_map(|(dims, vals)| Case::IoWords { dims, vals }), run_case);
     ctx.finish();
 }
